@@ -30,6 +30,20 @@ example : Gen.FactsC16.joinShapes = ["ROOT,DIR", "ROOT,DIR,U,C", "ROOT,DIR,U,C,S
 example : (Gen.FactsC16.v2IdMin, Gen.FactsC16.v2IdMax, Gen.FactsC16.v2IdRanges) = (3, 24, [(97, 122), (48, 57)]) := by decide
 example : (Gen.FactsC16.v1IdMin, Gen.FactsC16.v1IdMax, Gen.FactsC16.v1IdRanges) = (3, 16, [(97, 122), (65, 90), (48, 57)]) := by decide
 example : (Gen.FactsC16.v2UriMin, Gen.FactsC16.v2UriMax) = (3, 24) := by decide
+/-- all the state that requests share inside a node: the node database and the shard manager (the
+model's `Node.db` / `Node.fs`), the configuration, the RPC client cache (keyed by server name) and
+metrics.  The model has no other channel between two requests; a new field is a new channel. -/
+example : Gen.FactsC16.nodeFields =
+    ["logger zerolog.Logger", "cfg ClusterNodeConfig", "Servers []string", "MyHostname string", "rpcClients map[string]*rpc.Client",
+     "rpcClientsMu sync.Mutex", "metrics *clusterNodeMetrics", "nodedb diskstore.DiskStore", "shardManager *ShardManager",
+     "doneCh chan struct{}", "bgWaitGroup sync.WaitGroup"] := by decide
+/-- the collection-level actions are pure routing: through their receiver they reach the server list,
+their own name and the RPC handler of the same name — no state of the node (`lookup` below is one
+atomic read of the node database for exactly the key `user/collection`) -/
+example : Gen.FactsC16.actionUses =
+    ["CreateCollection: MyHostname,RPCCreateCollection,Servers", "ListCollections: MyHostname,RPCListCollections,Servers",
+     "GetCollection: MyHostname,RPCGetCollection,Servers",
+     "DeleteCollection: MyHostname,RPCDeleteCollection,RPCDeleteCollectionShards,Servers,logger"] := by decide
 
 /-- "userCollections" as bytes -/
 def userColsDirBytes : Bytes :=
@@ -205,4 +219,128 @@ theorem C16_histories_pinned_partial {cfg : Cfg} (hd : validSeg cfg.dir) {s : No
   have := run_proj hd hb H s hwf hok
   rw [this]; exact ⟨rfl, rfl⟩
 
+/-! ### concurrent histories (repaired middleware)
+
+Any number of client connections of any tenants, each sending its own requests one after the other;
+a collection-scoped request takes two atomic steps (the look-up of the collection record, then the
+handler with that record), and a schedule — ANY list of client indices — decides who moves next. -/
+
+/-- a client that has not started yet is in a good state if its shard-name oracles are plain names -/
+theorem C16_client_fresh {u : Bytes} {todo : List Op} (h : ∀ op ∈ todo, OpOk op) :
+    Client.Good { user := u, todo := todo } :=
+  ⟨h, fun _ _ e => by simp at e⟩
+
+/-- the two steps of a request, taken back to back, are the atomic `step` of the sequential model
+(so `C16_histories` is the special case of schedules that never interrupt a request) -/
+theorem C16_atomic (cfg : Cfg) (s : Node) (u : Bytes) (op : Op) (rest : List Op) (got : List Resp) :
+    let r1 := cstep cfg s { user := u, todo := op :: rest, got := got }
+    (if r1.2.inflight.isSome then cstep cfg r1.1 r1.2 else r1) =
+      ((step cfg s u op).1, { user := u, todo := rest, inflight := none, got := (step cfg s u op).2 :: got }) := by
+  simp only [cstep]
+  by_cases hacc : acceptUser cfg.variant u = true
+  · simp only [hacc, Bool.not_true, Bool.false_eq_true, if_false]
+    cases hc : op.coll? with
+    | none => simp
+    | some c =>
+      simp only [step_eq_body hc hacc]
+      by_cases hv : validUriId c = true
+      · simp only [hv, Bool.not_true, Bool.false_eq_true, if_false]
+        cases hget : dbGet s.db (key u c) <;> simp
+      · simp [hv]
+  · simp [hacc, step]
+
+/-- **Non-interference for concurrent histories.**  For every schedule, every set of clients (of
+any tenants, in any state reachable from fresh clients) and every well-formed node: the part of the
+node that belongs to `b`, and the complete state of every client of `b` — the responses it has
+received, what it has in flight, what it has still to send — are exactly those of the run in which
+only `b`'s clients ever move, on `b`'s part of the node alone. -/
+theorem C16_concurrent {cfg : Cfg} (hv : cfg.variant = .fixed) (hd : validSeg cfg.dir) {s : Node} {b : Bytes}
+    (ts : List Client) (sched : List Nat) (hwf : WF s) (hb : acceptUser .fixed b = true) (hg : ∀ t ∈ ts, t.Good) :
+    proj cfg b (crun cfg s ts sched).1 = (crunOnly cfg b (proj cfg b s) ts sched).1 ∧
+    ∀ (i : Nat) (t : Client), (crun cfg s ts sched).2[i]? = some t → t.user = b →
+      (crunOnly cfg b (proj cfg b s) ts sched).2[i]? = some t := by
+  have h := crun_proj hd (acceptFixed_validSeg hb) (fun u hu => acceptFixed_validSeg (hv ▸ hu)) sched s ts ts hwf hg (agree_refl b ts)
+  refine ⟨h.1, fun i t ht hu => ?_⟩
+  have hi := h.2 i
+  rw [ht] at hi
+  cases h2 : (crunOnly cfg b (proj cfg b s) ts sched).2[i]? with
+  | none => simp [h2, agreeAt] at hi
+  | some t' =>
+    simp only [h2, agreeAt] at hi
+    rw [hi.2 hu]
+
+/-- the run in which only `b`'s clients move depends on the schedule only through the order of
+`b`'s own clients' steps -/
+theorem C16_only_filter (cfg : Cfg) (b : Bytes) : ∀ (sched : List Nat) (s : Node) (ts : List Client),
+    crunOnly cfg b s ts sched = crunOnly cfg b s ts (sched.filter fun i => decide ((ts.map (·.user))[i]? = some b))
+  | [], _, _ => rfl
+  | i :: rest, s, ts => by
+    cases h1 : ts[i]? with
+    | none =>
+      have : (ts.map (·.user))[i]? = none := by simp [h1]
+      simp only [List.filter_cons, this, crunOnly, h1]
+      simpa using C16_only_filter cfg b rest s ts
+    | some t =>
+      have hm : (ts.map (·.user))[i]? = some t.user := by simp [h1]
+      by_cases hub : t.user = b
+      · have hset : (ts.set i (cstep cfg s t).2).map (·.user) = ts.map (·.user) := by
+          apply List.ext_getElem?
+          intro j
+          by_cases e : i = j
+          · subst e
+            simp [List.getElem?_set_self', h1, cstep_user]
+          · simp [List.getElem?_set_ne e]
+        have ih := C16_only_filter cfg b rest (cstep cfg s t).1 (ts.set i (cstep cfg s t).2)
+        rw [hset] at ih
+        simp only [List.filter_cons, hm, hub, decide_true, if_true, crunOnly, h1]
+        exact ih
+      · have : ¬ (some t.user = some b) := fun e => hub (by simpa using e)
+        simp only [List.filter_cons, hm, this, decide_false, Bool.false_eq_true, if_false, crunOnly, h1, hub]
+        exact C16_only_filter cfg b rest s ts
+
+/-- **Any interleaving.**  Two schedules that order the steps of `b`'s own clients in the same way —
+and are otherwise arbitrary: other tenants' clients may be added, removed, moved between and into the
+middle of `b`'s requests — give every client of `b` the same responses and leave `b`'s part of the
+node the same. -/
+theorem C16_any_interleaving {cfg : Cfg} (hv : cfg.variant = .fixed) (hd : validSeg cfg.dir) {s : Node} {b : Bytes}
+    (ts : List Client) (sched sched' : List Nat) (hwf : WF s) (hb : acceptUser .fixed b = true) (hg : ∀ t ∈ ts, t.Good)
+    (hsame : (sched.filter fun i => decide ((ts.map (·.user))[i]? = some b)) = (sched'.filter fun i => decide ((ts.map (·.user))[i]? = some b))) :
+    proj cfg b (crun cfg s ts sched).1 = proj cfg b (crun cfg s ts sched').1 ∧
+    ∀ (i : Nat) (t : Client), (crun cfg s ts sched).2[i]? = some t → t.user = b → ∃ t' : Client, (crun cfg s ts sched').2[i]? = some t' ∧ t'.got = t.got := by
+  have h1 := C16_concurrent hv hd ts sched hwf hb hg
+  have h2 := crun_proj hd (acceptFixed_validSeg hb) (fun u hu => acceptFixed_validSeg (hv ▸ hu)) sched' s ts ts hwf hg (agree_refl b ts)
+  have e : crunOnly cfg b (proj cfg b s) ts sched = crunOnly cfg b (proj cfg b s) ts sched' := by
+    rw [C16_only_filter cfg b sched, C16_only_filter cfg b sched', hsame]
+  refine ⟨by rw [h1.1, h2.1, e], fun i t ht hu => ?_⟩
+  have h3 := h1.2 i t ht hu
+  rw [e] at h3
+  have hi := h2.2 i
+  rw [h3] at hi
+  cases h4 : (crun cfg s ts sched').2[i]? with
+  | none => simp [h4, agreeAt] at hi
+  | some t' =>
+    simp only [h4, agreeAt] at hi
+    refine ⟨t', rfl, ?_⟩
+    have : t'.user = b := hi.1.trans hu
+    rw [hi.2 this]
+
+/-! #### non-vacuity: the tenants of the demonstration, look-ups interleaved -/
+def exAcme : Bytes := [0x61#8, 0x63#8, 0x6d#8, 0x65#8]
+def exAcme1 : Bytes := [0x61#8, 0x63#8, 0x6d#8, 0x65#8, 0x31#8]
+def ex1data : Bytes := [0x31#8, 0x64#8, 0x61#8, 0x74#8, 0x61#8]
+def exData : Bytes := [0x64#8, 0x61#8, 0x74#8, 0x61#8]
+/-- "acme" owns "1data" (point 1 ↦ 11), "acme1" owns "data" (point 1 ↦ 22): `acme ++ 1data = acme1 ++ data` -/
+def exTwinNode : Node := (run (exCfg .fixed) {}
+  [(exAcme, .create false ex1data), (exAcme, .insert ex1data [0x73#8, 0x30#8] [(1, 11)]),
+   (exAcme1, .create false exData), (exAcme1, .insert exData [0x73#8, 0x31#8] [(1, 22)])]).1
+def exClients : List Client := [{ user := exAcme, todo := [.search ex1data, .update ex1data [(1, 12)]] }, { user := exAcme1, todo := [.search exData] }]
+
+example : exAcme ++ ex1data = exAcme1 ++ exData ∧ acceptUser .fixed exAcme = true ∧ acceptUser .fixed exAcme1 = true := by decide
+example : ∀ t ∈ exClients, t.Good := by
+  intro t ht
+  simp only [exClients, List.mem_cons, List.mem_nil_iff, or_false] at ht
+  rcases ht with rfl | rfl <;> exact C16_client_fresh (by decide)
+/-- both look-ups first, then both handlers, then acme's update in two steps: everybody gets his own points -/
+example : ((crun (exCfg .fixed) exTwinNode exClients [0, 1, 1, 0, 0, 0]).2.map (·.got)) =
+    [[.failed [], .points [(1, 11)]], [.points [(1, 22)]]] := by decide
 end Sema.C16
